@@ -2,6 +2,6 @@ CONSTANTS NodeId = 5  HbInit = 2  Walk = FALSE  WalkLen = 0  EvCap = 1  PoolN = 
 CONSTANT Letters <- L20  HcInit <- HC20  ProbeLetters <- P20
 INIT Init
 NEXT Next
-VIEW View
+VIEW ViewM
 CONSTRAINT Bound
 INVARIANTS InvC09 InvC10 InvC11 InvC20
